@@ -1,10 +1,129 @@
 import MazeVerif.DriverOps.Util
+import MazeVerif.Model.LegacyTok
 namespace MZ.Drv.C07
-open Lean MZ.Drv
+open Lean MZ.Drv MZ.LT
 
-/-- driver ops of property C07 (`"op": "C07.<name>"`) -/
-def handle (op : String) (_j : Json) : R Json := do
+def jS (s : Str) : Json := Json.str (String.ofList s)
+def jSs (l : List Str) : Json := Json.arr (l.map jS).toArray
+def asStrs (j : Json) : R (List Str) := do (← j.getArr?).toList.mapM (fun x => do pure (← x.getStr?).toList)
+def getStrs (j : Json) (k : String) : R (List Str) := do asStrs (← fld j k)
+
+def asNCell (j : Json) : R NCell := do
+  match ← asNatList j with
+  | [r, c] => pure (r, c)
+  | _ => throw "ncell: expected [r,c]"
+def asNEdge (j : Json) : R NEdge := do
+  match ← asNatList j with
+  | [d, r, c] => pure (d, r, c)
+  | _ => throw "nedge: expected [d,r,c]"
+def asPair (j : Json) : R (NCell × NCell) := do
+  match (← j.getArr?).toList with
+  | [a, b] => pure ((← asNCell a), (← asNCell b))
+  | _ => throw "pair: expected [[r,c],[r,c]]"
+def jNCell (c : NCell) : Json := Json.arr #[jNat c.1, jNat c.2]
+def jNEdge (e : NEdge) : Json := Json.arr #[jNat e.1, jNat e.2.1, jNat e.2.2]
+
+def errName : Err → String
+  | .indexError => "indexError" | .valueError => "valueError" | .assertionError => "assertionError"
+  | .arrayShape => "arrayShape" | .notImplemented => "notImplemented" | .unsupported => "unsupported"
+
+def getMaze (j : Json) : R AnyMaze := do
+  let rows ← getNat j "rows"
+  let cols ← getNat j "cols"
+  let edges ← (← getArr j "edges").mapM asNEdge
+  let m : LMaze := ⟨rows, cols, edges⟩
+  match ← getStr j "kind" with
+  | "lattice" => pure (.lattice m)
+  | "targeted" => pure (.targeted m (← asNCell (← fld j "start")) (← asNCell (← fld j "end")))
+  | "solved" => pure (.solved m (← asNCell (← fld j "start")) (← asNCell (← fld j "end")) (← (← getArr j "solution").mapM asNCell))
+  | k => throw s!"unknown kind {k}"
+
+/-- canonical edge list: sorted, duplicates removed (`connection_list` is a bit array) -/
+def canonEdges (es : List NEdge) : List NEdge :=
+  let key (e : NEdge) : Nat × Nat × Nat := e
+  let sorted := es.mergeSort (fun a b => decide (key a = key b ∨ (a.1 < b.1 ∨ (a.1 = b.1 ∧ (a.2.1 < b.2.1 ∨ (a.2.1 = b.2.1 ∧ a.2.2 < b.2.2))))))
+  sorted.eraseDups
+
+def jMaze : AnyMaze → Json
+  | .lattice m => obj [("kind", "lattice"), ("rows", jNat m.rows), ("cols", jNat m.cols), ("edges", jList jNEdge (canonEdges m.edges))]
+  | .targeted m s e => obj [("kind", "targeted"), ("rows", jNat m.rows), ("cols", jNat m.cols), ("edges", jList jNEdge (canonEdges m.edges)),
+      ("start", jNCell s), ("end", jNCell e)]
+  | .solved m s e sol => obj [("kind", "solved"), ("rows", jNat m.rows), ("cols", jNat m.cols), ("edges", jList jNEdge (canonEdges m.edges)),
+      ("start", jNCell s), ("end", jNCell e), ("solution", jList jNCell sol)]
+
+def jResult {α} (f : α → Json) : Except Err α → Json
+  | .ok x => obj [("ok", f x)]
+  | .error e => obj [("err", Json.str (errName e))]
+
+def getMode (j : Json) : R Mode := do
+  match ← getStr j "mode" with
+  | "AOTP_UT_rasterized" => pure .utRasterized
+  | "AOTP_UT_uniform" => pure .utUniform
+  | "AOTP_CTT_indexed" => pure .cttIndexed
+  | m => throw s!"unknown mode {m}"
+
+def getTokSpec (j : Json) : R TokSpec := do
+  match ← getStr j "tokenizer" with
+  | "legacy" => pure .legacy
+  | "modular" => pure (.modular (← getBool j "legacy_equivalent"))
+  | t => throw s!"unknown tokenizer {t}"
+
+def jItem : Item → Json
+  | .coord t => jNats t
+  | .str s => jS s
+
+def getWhen (j : Json) : R When := do
+  match ← getStr j "when" with
+  | "skip" => pure .skip | "error" => pure .error | "include" => pure .include
+  | w => throw s!"unknown when {w}"
+
+/-- ops:
+ * `C07.as_tokens` {mode, kind, rows, cols, edges, [start,end,solution], adj:[[[r,c],[r,c]],…]} →
+     {adj_ok, legacy:[tokens], modular:{ok:[tokens]}|{err}}
+ * `C07.from_tokens` {tokenizer, legacy_equivalent, tokens:[…]} | {…, text:"…"} → {ok: maze}|{err}
+ * `C07.scan` {s} → {split, pysplit, is_coord, tuple|null, strip}
+ * `C07.between` {tokens, start, end, incl_start, incl_end} → {ok:[…]}|{err}; plus {list_split:[[…]]} on `sep`
+ * `C07.strings_to_coords` {tokens, when} → {ok:[item]}|{err}
+ * `C07.from_adj_list` {adj} → {ok: maze}|{err}
+ * `C07.slice` {n, limit|null} → {count} -/
+def handle (op : String) (j : Json) : R Json := do
   match op with
+  | "C07.as_tokens" =>
+    let mode ← getMode j
+    let mz ← getMaze j
+    let adj ← (← getArr j "adj").mapM asPair
+    pure <| obj [("adj_ok", Json.bool (adjOK mz.base adj)),
+                 ("legacy", jSs (asTokens mode mz adj)),
+                 ("modular", jResult jSs (modularTokens (fromLegacy mode) mz adj))]
+  | "C07.from_tokens" =>
+    let tk ← getTokSpec j
+    match optFld j "text" with
+    | some t => pure <| jResult jMaze (fromTokensStr tk (← t.getStr?).toList)
+    | none => pure <| jResult jMaze (fromTokens tk (← getStrs j "tokens"))
+  | "C07.scan" =>
+    let s := (← getStr j "s").toList
+    pure <| obj [("split", jSs (splitUT s)), ("pysplit", jSs (pySplit s)), ("is_coord", Json.bool (strIsCoord s)),
+                 ("tuple", match coordNoneable s with | some t => jNats t | none => Json.null),
+                 ("strip", jS (strip s))]
+  | "C07.between" =>
+    let toks ← getStrs j "tokens"
+    let s := (← getStr j "start").toList
+    let e := (← getStr j "end").toList
+    let sep := (← getStr j "sep").toList
+    pure <| obj [("between", jResult jSs (tokensBetween toks s e (← getBool j "incl_start") (← getBool j "incl_end"))),
+                 ("list_split", Json.arr ((splitList sep toks).map jSs).toArray)]
+  | "C07.strings_to_coords" =>
+    let toks ← getStrs j "tokens"
+    pure <| jResult (jList jItem) (stringsToCoords toks (← getWhen j))
+  | "C07.from_adj_list" =>
+    let adj ← (← getArr j "adj").mapM asPair
+    pure <| jResult (fun m => jMaze (.lattice m)) (fromAdjList adj)
+  | "C07.slice" =>
+    let n ← getNat j "n"
+    let lim : Option Int := match optFld j "limit" with
+      | some v => (v.getInt?).toOption
+      | none => none
+    pure <| obj [("picked", jNats (sliceLimit (List.range n) lim))]
   | _ => throw s!"unknown op {op}"
 
 end MZ.Drv.C07
